@@ -4,6 +4,10 @@ import json, sys
 
 ENGINE = "gsx"
 CHECKS = {
+ "C01": dict(
+   text="Values of the hand-written codec types, Variants of the built-in types and array shapes, and two service messages are built from symbolic leaves, encoded and decoded by the real code (reflection codec included) and compared with reflect.DeepEqual; every comparison is an SMT query over all leaf values.",
+   note="Covers the special types and the shared reflection codec, not an enumeration of all ~400 generated types (stated outside). Found and fixed: arrays of ByteStrings were encoded without their elements. Trusted: go/ssa, gsx (reflect intrinsics), z3.",
+   ref="DESIGN.md §5 C01"),
  "C02": dict(
    text="The real decoders (hand-written and reflection-driven) are executed on N fully symbolic input bytes; every Go run-time panic, every allocation with a symbolic size (budget 256*N + 4 MiB), the consumed-bytes bound and loop bounds are obligations decided by the solver for all 256^N inputs per length.",
    note="Bounds per type in the evidence (N between 3 and 17 quick). Found and fixed (f896de1): negative array length panic, dimension-product overflow hang, unbounded allocations. Trusted: go/ssa, gsx (reflect intrinsics), z3.",
